@@ -585,6 +585,7 @@ def cmd_check(args):
             "contract_clauses": clause_list,
             "functions_under_contract": fns_under_contract,
             "extraction_edits": edits, "macro_rewrites": macro_rw,
+            "assumed_repo_functions": sorted({q["key"] + " pin=" + str(q["pin"]) for un in units if not results[un].get("gen_error") for q in results[un].get("assume_pins", [])}),
             "backend": "Verus 0.2026.09.13 (Z3) single-file on text re-extracted from the working tree",
             "solver_time_ms": smt_ms,
             "vacuity_guard": {un.upper(): results[un].get("vacuity") for un in units if not results[un].get("gen_error")},
